@@ -45,6 +45,16 @@ INFO = {
     "C14-2": ("backup-limit step moved before the rename loop; an indexed oldest entry is only forgotten, not removed", "Date/DateAndTime naming, finite max_backup_files >= 2 with overwrite, two rotated files sharing a suffix, then the suffix changes and that series becomes the oldest"),
     "C15-2": ("_rotate_files() re-arms the time-rotation point (also after a size rotation)", "sink with size AND time rotation: a size rotation inside a period, then a statement stamped in [scheduled point, size-rotation time + period) that still fits"),
     "C19-2": ("named-args clean-up of the reused transit slot moved behind the dispatch (skipped for backtrace statements and throwing sinks); populate uses emplace_back", "a named-argument LOG_BACKTRACE (or a named statement whose sink throws), then the statement that reuses the same transit slot"),
+    "C03-3": ("register_thread_context() raises the new-context flag before taking the registry lock (LockGuard tidy-up)", "backend consumes the flag and rebuilds its list while the new thread waits for the lock, and no later thread registers: the thread is never polled"),
+    "C04-3": ("sanitize_non_printable_chars() asks the configured predicate only for characters outside ' '..'~' in its pre-scan", "a user check_printable_char stricter than the default for a plain ASCII character, a string argument containing it, no other rejected character in the message"),
+    "C05-3": ("after the lazy creation of the RdtscClock the populate function returns false for that queue", "TSC (default) clock loggers; the first TSC statement ever decoded while another thread's later statement is already queued in the same pass"),
+    "C06-3": ("sink collection loop in _flush_and_run_active_sinks uses break instead of continue for an already cached sink", "two loggers; the second one's sink list has a sink shared with the first BEFORE a sink only it has: that sink is never flushed"),
+    "C10-3": ("per-call-site cache of formatting errors (MacroMetadata* -> error text)", "a call site whose statement failed once with a std::exception (value dependent), then a healthy statement through the same call site"),
+    "C12-3": ("log_to_write declared once outside the per-sink loop in _write_log_statement", "one logger with an override-pattern sink placed BEFORE a sink without override"),
+    "C16-3": ("add_filter keeps the filters sorted by name; apply_all_filters only appends the tail of the global list", "a filter added after the backend loaded the list, with a name sorting before an already loaded one"),
+    "C17-3": ("create_or_get_logger constructs the Logger outside the lock and does not re-check the name", "two threads create-or-get the same unregistered name at the same moment"),
+    "C18-3": ("init_backtrace stores the flush level only when it is not None", "re-initialisation from a level to None, stored backtrace statements, then an ordinary statement at/above the old level"),
+    "C19-3": ("JsonSink replaces new lines in the object only when the text message contains one", "a value ending in a new line at the end of the message (stripped from the message), or a surplus argument with a new line"),
     "C17-2": ("SinkManager::_insert_sink uses upper_bound", "a sink expires without a logger removal, the same sink name is created again and looked up before any logger is removed"),
 }
 for name, (change, needs) in INFO.items():
